@@ -73,3 +73,12 @@ def check(ctx):
     ctx.notes.append("not decided: 'within a few ulps' at interior keyframes (needs ease(1) = 1 and division rounding), "
                      "every cycle k (periodicity of % in floats)")
     ctx.assumptions += ["cycle duration finite > 0", "values representable in f32 (the property's premise)"]
+
+
+def controls(ctx, F):
+    from rules import c03
+    tab = TT.build(ctx, F, adt=c03.CTL_TS)
+    rule_hold(ctx, tab, "R2")
+    rule_ended(ctx, tab, "R3")
+    return [("R2", "wraps-before-end-value", "time scale copy without the hold-at-100% rule"),
+            ("R3", "terminal-position-wrong", "time scale copy whose reversing timelines end at 1.0")]
